@@ -51,6 +51,9 @@ def judge(mode, maxd, got):
         bad.append(f"only {len(ms)} of {maxd + 1} members reported")
     if len(got.get("tracker_pids", [])) != 1:
         bad.append(f"members report to different trackers: {got.get('tracker_pids')}")
+    if len(got.get("tracker_processes_in_tree", [0])) != 1:
+        bad.append(f"{len(got['tracker_processes_in_tree'])} tracker processes serve one tree (a member started a private one): "
+                   f"{got['tracker_processes_in_tree']}")
     if mode == "signals" and not got.get("tracker_alive_after_signals"):
         bad.append("tracker died of SIGINT/SIGTERM")
     if mode == "sigkill":
